@@ -778,6 +778,106 @@ fn opt_err_case(idx: u64, sink: &mut Sink<'_>) {
     sink.pass(H64::new().u(idx).get());
 }
 
+/// Phase map-keys: a message whose parameters hold a map with a key of every kind of the serde data
+/// model, bare and wrapped in Some / a newtype struct (once and twice).  Whether such a message is
+/// accepted is not judged here (C03 does that); an accepted one must reach the transport as one JSON
+/// document (so: its keys as strings) denoting what serde_json makes of the value, a refused one must
+/// leave nothing behind; the plain message after it goes out alone.
+#[derive(Debug, Serialize)]
+struct Keyed {
+    m: crate::jsoneq::V,
+    after: u8,
+}
+const KEY_WRAPS: [&str; 6] = ["bare", "Some", "newtype", "Some(Some)", "Some(newtype)", "newtype(Some)"];
+const KEYED_CASES: u64 = 3 * 6 * crate::jsoneq::KEYS as u64 * 2;
+
+fn keyed_case(idx: u64, sink: &mut Sink<'_>) {
+    use crate::jsoneq::V;
+    let nk = crate::jsoneq::KEYS as u64;
+    let (two, k, wrap, form) = (idx % 2 == 1, (idx / 2 % nk) as usize, (idx / 2 / nk % 6) as usize, idx / 2 / nk / 6);
+    let wrapped = |inner: V| -> V {
+        let s = |x: V| V::Some(Box::new(x));
+        let n = |x: V| V::NewtypeStruct(Box::new(x));
+        match wrap {
+            0 => inner,
+            1 => s(inner),
+            2 => n(inner),
+            3 => s(s(inner)),
+            4 => s(n(inner)),
+            _ => n(s(inner)),
+        }
+    };
+    let mut entries = vec![(wrapped(crate::jsoneq::key(k)), V::U8(1))];
+    if two {
+        entries.insert(0, (V::Str("first".into()), V::U8(0)));
+        entries.push((V::Str("last".into()), V::U8(2)));
+    }
+    let v = Keyed { m: V::Map(entries), after: 7 };
+    let case = || json!({"group": "map-keys", "form": form, "key": format!("{:?}", crate::jsoneq::key(k)), "wrapped": KEY_WRAPS[wrap], "entries": if two { 3 } else { 1 }, "index": idx});
+    let wire = Wire::new(0, None);
+    let mut conn = wire.connection();
+    let (res, reference) = match form {
+        0 => {
+            let call = Call::new(&v);
+            let r = conn.enqueue_call(&call);
+            (r.and_then(|_| complete(conn.flush())), serde_json::to_value(&call))
+        }
+        1 => {
+            let r = Reply::new(Some(&v));
+            (complete(conn.send_reply(&r)), serde_json::to_value(&r))
+        }
+        _ => (complete(conn.send_error(&v)), serde_json::to_value(&v)),
+    };
+    let written = wire.written();
+    match res {
+        Err(_) => {
+            sink.goal("message-refused-for-a-map-key");
+            if !written.is_empty() {
+                sink.fail("outframe:refused-message-left-bytes", format!("the message was refused, the transport has `{}`", show(&written)), case());
+                return;
+            }
+        }
+        Ok(()) => {
+            sink.goal("message-with-a-non-string-map-key");
+            let doc = match written.split_last() {
+                Some((0, doc)) if !doc.contains(&0) => doc,
+                _ => {
+                    sink.fail("outframe:stream-differs", format!("the transport has `{}`: not one document followed by one NUL", show(&written)), case());
+                    return;
+                }
+            };
+            match (serde_json::from_slice::<Value>(doc), reference) {
+                (Err(e), _) => {
+                    sink.fail("outframe:frame-is-not-a-json-document", format!("`{}`: {e}", show(doc)), case());
+                    return;
+                }
+                (Ok(got), Ok(want)) if got != want => {
+                    sink.fail("outframe:write-has-wrong-bytes", format!("`{}` does not denote {want}", show(doc)), case());
+                    return;
+                }
+                _ => {}
+            }
+        }
+    }
+    // the connection goes on: a plain message, alone in its write
+    let before = wire.0.borrow().writes.len();
+    let plain = Shapes { v: ShapeV::Seq(vec![]), after: 1 };
+    let r = Reply::new(Some(&plain));
+    if let Err(e) = complete(conn.send_reply(&r)) {
+        sink.fail("outframe:valid-message-refused", format!("the plain message after it: {e:?}"), case());
+        return;
+    }
+    let mut want = serde_json::to_vec(&r).unwrap();
+    want.push(0);
+    let w = wire.0.borrow();
+    if w.writes.len() != before + 1 || w.writes[before] != want {
+        sink.fail("outframe:stream-differs", format!("the plain message after it reached the transport as {:?}", w.writes[before..].iter().map(|x| show(x)).collect::<Vec<_>>()), case());
+        return;
+    }
+    sink.steps(2);
+    sink.pass(H64::new().u(idx).u(written.len() as u64).get());
+}
+
 fn shape_case(idx: u64, sink: &mut Sink<'_>) {
     let n = N_SHAPES as u64;
     let (form, i, j) = (idx / (n * n), (idx / n % n) as usize, (idx % n) as usize);
@@ -827,7 +927,7 @@ fn shape_case(idx: u64, sink: &mut Sink<'_>) {
 
 pub fn run(tier: Tier) -> i32 {
     let mut rep = Report::new("C02", tier.name());
-    rep.rule = "phase square: both message lengths from 1..=700 (all 490 000 pairs) x 4 operation forms (enqueue+enqueue+flush, send+send, enqueue+send, enqueue+flush+send), so every free-space value 0..=600 and every relation to the 256-byte step is met when the second message starts; phase odd-characters: every pair of payloads holding NUL / control / quote / backslash / DEL / non-ASCII / U+2028 as a char, inside a string and inside a map key x 3 operation forms (each message must carry exactly one NUL byte: its terminator); phase empty-shapes: every pair of 14 payloads whose encoding has nothing between its brackets (enum variants with an empty or entirely skipped payload, field-less structs, empty and nested-empty containers, unit, Some(None)) x 3 operation forms; phase optional-error-fields: pairs of errors of a derived type whose variant has only optional fields, every combination present / absent, frames compared with hand-built JSON; phase large (run by the main build, production limit): one flush handing over 4 KiB .. 1 MiB (one below, at, one above every power of two; quick: to 256 KiB) built in five ways (one large message, hundreds of small ones, mixtures), then a second flush and a small message; phases hist*: DFS over all operation histories up to the stated length over {enqueue_call, send_call, send_reply, send_error} x lengths chosen relative to the current free space (1, 2, 9, free-2..free+2, free+254..free+258) + flush + 4 unserializable messages (tuple map key; Serialize impl failing after 0/5/150 elements) through enqueue and through send. Outcomes are distinct (pending length, write count) sequences; states are (buffer length, pending length, writes) triples".into();
+    rep.rule = "phase square: both message lengths from 1..=700 (all 490 000 pairs) x 4 operation forms (enqueue+enqueue+flush, send+send, enqueue+send, enqueue+flush+send), so every free-space value 0..=600 and every relation to the 256-byte step is met when the second message starts; phase odd-characters: every pair of payloads holding NUL / control / quote / backslash / DEL / non-ASCII / U+2028 as a char, inside a string and inside a map key x 3 operation forms (each message must carry exactly one NUL byte: its terminator); phase empty-shapes: every pair of 14 payloads whose encoding has nothing between its brackets (enum variants with an empty or entirely skipped payload, field-less structs, empty and nested-empty containers, unit, Some(None)) x 3 operation forms; phase map-keys: a map with a key of each of 24 kinds (strings, chars, integers, unit variants, bool, floats, options, unit, bytes, sequences, tuples, maps, structs, ...), bare and wrapped in Some / a newtype struct (once and twice), alone or between two string keys, x 3 operation forms: accepted means one JSON document (keys as strings) denoting what serde_json makes of the value, refused means no bytes, and the plain message after it goes out alone; phase optional-error-fields: pairs of errors of a derived type whose variant has only optional fields, every combination present / absent, frames compared with hand-built JSON; phase large (run by the main build, production limit): one flush handing over 4 KiB .. 1 MiB (one below, at, one above every power of two; quick: to 256 KiB) built in five ways (one large message, hundreds of small ones, mixtures), then a second flush and a small message; phases hist*: DFS over all operation histories up to the stated length over {enqueue_call, send_call, send_reply, send_error} x lengths chosen relative to the current free space (1, 2, 9, free-2..free+2, free+254..free+258) + flush + 4 unserializable messages (tuple map key; Serialize impl failing after 0/5/150 elements) through enqueue and through send. Outcomes are distinct (pending length, write count) sequences; states are (buffer length, pending length, writes) triples".into();
     rep.assumptions = vec![
         "serde_json::to_vec is the meaning of `the JSON document of a message`; a write that differs in bytes but splits at NUL into documents denoting the same values is accepted here (byte identity is C03)".into(),
         "the scripted WriteHalf accepts every write completely (write faults and partial writes are C09/C19)".into(),
@@ -856,6 +956,9 @@ pub fn run(tier: Tier) -> i32 {
     rep.add(sweep("odd-characters", 3 * (ODD_CHARS.len() * ODD_CHARS.len()) as u64, &cfg, odd_case));
     rep.require_goal("payload-with-an-empty-variant-or-container");
     rep.add(sweep("empty-shapes", 3 * (N_SHAPES * N_SHAPES) as u64, &cfg, shape_case));
+    rep.require_goal("message-refused-for-a-map-key");
+    rep.require_goal("message-with-a-non-string-map-key");
+    rep.add(sweep("map-keys", KEYED_CASES, &cfg, keyed_case));
     rep.require_goal("error-whose-fields-are-all-optional");
     rep.add(sweep("optional-error-fields", 25, &cfg, opt_err_case));
     let plan: Vec<(&str, usize, bool)> = match tier {
@@ -891,6 +994,8 @@ pub fn replay(v: &Value) -> Replayed {
         let cfg = Config { threads: 1, ..Default::default() };
         let st = if v["case"]["group"] == "optional-error-fields" {
             xplore::sweep_one("optional-error-fields", v["case"]["index"].as_u64().unwrap_or(idx), &cfg, opt_err_case)
+        } else if v["case"]["group"] == "map-keys" {
+            xplore::sweep_one("map-keys", v["case"]["index"].as_u64().unwrap_or(idx), &cfg, keyed_case)
         } else if v["case"]["group"] == "empty-shapes" {
             xplore::sweep_one("empty-shapes", v["case"]["index"].as_u64().unwrap_or(idx), &cfg, shape_case)
         } else if v["case"]["group"] == "odd-characters" { xplore::sweep_one("odd-characters", idx, &cfg, odd_case) } else { xplore::sweep_one("square", idx, &cfg, square_case) };
